@@ -57,6 +57,14 @@ type cliScenario struct {
 	DoubleClose bool         `json:"double_close"`
 	LogDropped  bool         `json:"log_dropped"`    // nclient6: WithLogDroppedPackets
 	Dest        int          `json:"dest,omitempty"` // destination selector (adapter.setDest): other ports, broadcast, zoned IPv6 addresses
+	Window      int          `json:"window,omitempty"` // unlimited tries are watched for this many tries before the runner cancels (0: 11)
+}
+
+func (sc cliScenario) window() int {
+	if sc.Window > 0 {
+		return sc.Window
+	}
+	return 11
 }
 
 // blockedAcrossDeadline: a matcher is held (by the caller's own code) past the deadline of a try. What the client
@@ -256,7 +264,7 @@ func cliHorizon(sc cliScenario) int {
 	end := 1
 	n := sc.Tries
 	if n < 0 {
-		n = 11 // observed window for unlimited tries (virtual time is free)
+		n = sc.window() // observed window for unlimited tries (virtual time is free)
 	}
 	for _, c := range sc.Calls {
 		e := c.Start + sc.T*((1<<uint(n))-1) + 2
@@ -585,7 +593,7 @@ func cmpCli(prop string, sc cliScenario, got cliOutcome, asp int) *obs.Fail {
 func cmpCliLoose(prop, name string, sc cliScenario, got cliOutcome) *obs.Fail {
 	n := sc.Tries
 	if n < 0 {
-		n = 11
+		n = sc.window()
 	}
 	for i, c := range sc.Calls {
 		g := got.Results[i]
